@@ -13,7 +13,7 @@ BASE=${3:-$(git -C /repo rev-parse HEAD)}
 git checkout -q --detach $BASE 2>>$LOG; git checkout -q -- . ; rm -f tests/zz_seeded_*.rs tests/zz_verif_*.rs
 echo "== base commit $(git rev-parse --short HEAD)" >> $LOG
 git apply --check $DIR/patch.diff 2>>$LOG || { echo "RESULT patch-does-not-apply" >> $LOG; exit 1; }
-git apply $DIR/patch.diff
+git apply $DIR/patch.diff; sleep 1; git diff --name-only | xargs -r touch
 echo "== baseline suite with the patch" >> $LOG
 cargo nextest run --workspace --no-fail-fast --tool-config-file pb:/w/lib/nextest.toml --profile pb --test-threads 8 --offline > /tmp/wt/verify-suite.log 2>&1
 grep -E "Summary|FAIL \[|error(\[|:)" /tmp/wt/verify-suite.log | head -20 >> $LOG
